@@ -63,6 +63,7 @@ def job_history(args):
     outs = []
     shared_kwargs = {}
     shared_expect = {}
+    shared_sregs = {}
     probes = {"nonempty_mapping": 0, "crash_fired": 0, "crash_in_generate_code": 0}
     for op in args["ops"]:
         kind = op["op"]
@@ -76,7 +77,16 @@ def job_history(args):
             continue
         if kind == "GEN":
             def go(op=op):
-                gen, reg = infer(op["models"], op["options"])
+                sreg = None
+                if op.get("sreg_id") is not None:
+                    # the caller keeps ONE StringSerializableRegistry object for several generations and switches types
+                    # off in it between them; a pristine process does the same to a fresh object
+                    from ..pipeline import build_str_registry, narrow_str_registry
+                    if op["sreg_id"] not in shared_sregs:
+                        shared_sregs[op["sreg_id"]] = build_str_registry(op["sreg_base"])
+                    sreg = narrow_str_registry(shared_sregs[op["sreg_id"]], op["sreg_base"], op["options"]["str_types"])
+                    probes["shared_string_registry_generations"] = probes.get("shared_string_registry_generations", 0) + 1
+                gen, reg = infer(op["models"], op["options"], str_registry_obj=sreg)
                 slots[op["slot"]] = {"reg": reg, "gen": gen, "tree": _is_tree(reg)}
                 return _dump_registry(reg)
         elif kind == "EXTEND":
@@ -254,6 +264,30 @@ def make_history(seed, i, max_ops=4):
         r["options"] = dict(r["options"], max_literals=rng.choice([10, 20, 50]))
         ops += [c, gen_op(s_new), r]
         generated.append(s_new)
+    if not twin and not crash_then_render and rng.random() < 0.1:
+        # targeted order: ONE string-type registry object used by two generations over samples that share string values,
+        # with types removed from it in between
+        base = ["int", "float", "bool", "date", "time", "datetime"] if rng.random() < 0.5 else ["int", "float", "bool"]
+        sens = dict(scalar_kinds=["str_int", "str_float", "str_bool", "str_date", "str_time", "int"], p_hetero=0.4, width=4,
+                    p_null=0.0, p_missing=0.1, n_models=1, depth=1, bulk=0, chain=False)
+        s1 = max(slot_w) + 1
+        s2 = s1 + 1
+        slot_w[s1] = gen_workload(seeds.derive(seed, PROP, i, "sreg"), **sens)
+        slot_w[s2] = copy.deepcopy(slot_w[s1])
+        first = [n for n in base if rng.random() < 0.85] or list(base)
+        second = [n for n in first if rng.random() < 0.6]
+        g1, g2 = gen_op(s1), gen_op(s2)
+        g1["options"] = dict(g1["options"], str_types=first)
+        g2["options"] = dict(g2["options"], str_types=second)
+        for g in (g1, g2):
+            g.update(sreg_id=0, sreg_base=base)
+        tail = []
+        for sx in (s2, s1):
+            r = render_op(sx)
+            r.pop("kw_id", None)
+            tail.append(r)
+        ops += [g1, g2, *tail[:rng.randint(1, 2)]]
+        generated += [s1, s2]
     if twin and n_ops >= 4:
         ops += [render_op(0), gen_op(1), render_op(1)]
         generated.append(1)
@@ -465,6 +499,8 @@ def run(ctx):
             stats["crash_fired"] += r["probes"]["crash_fired"]
             stats["crash_in_generate_code"] += r["probes"]["crash_in_generate_code"]
             stats["forced_nested_perturbation"] += r["probes"].get("forced_nested_perturbation", 0)
+            stats["shared_string_registry_generations"] = stats.get("shared_string_registry_generations", 0) + \
+                r["probes"].get("shared_string_registry_generations", 0)
             gens = [o for o in h if o["op"] == "GEN"]
             stats["twin_slots_unicode_flip"] += any(a["models"] == b["models"] and a["slot"] != b["slot"] for a in gens for b in gens)
             rs = [o for o in h if o["op"] == "RENDER"]
